@@ -49,8 +49,9 @@ TRUSTED = ["torch.fft.fft2/ifft2 compute the defining DFT sums (the model's exec
 ASSUMPTIONS = ["sub-masks are subsets of the construction mask (the property's quantifier); batch indices are in range",
                "for upsampling u>1 the parallax closed form places the scan images on every u-th point of the finer grid "
                "(what Fourier tiling means in real space); for u=1 it is literally the statement",
-               "crop_bf_mask=True is exercised only with masks symmetric about the origin (the crop is owned by direct_ptycho_utils)",
-               "float tolerance: |impl-model| <= 5e-5*max(max|model|, 1e-3*natural magnitude = max|v-mean|/W) (float32/complex64 path; stricter than the DESIGN rule 5e-4), batch invariance 1e-5, each times the parallax phase conditioning max(1,|phase|/4)"]
+               "crop_bf_mask=True is exercised with symmetric and asymmetric masks and paddings 0..2 (sub-masks are given on the cropped "
+               "grid); a dedicated parallax stream targets masks with one extra pixel on either side of the origin",
+               "float tolerance: |impl-model| <= 5e-5*max(max|model|, 0.05*natural magnitude, natural = max|v-mean|/W) (float32/complex64 path; stricter than the DESIGN rule 5e-4), batch invariance 1e-5, each times the parallax phase conditioning max(1,|phase|/4)"]
 EXPLANATION = ("Theorems in Props/C04.lean are about Model/DirectPtycho.lean; every run captures the per-pixel factors from the real "
                "kernel method, runs the Lean driver on them and compares with the real reconstruct for every batch size.")
 
@@ -128,24 +129,22 @@ def gen_case(rng, idx):
 
 def _gen_case_once(rng, idx):
     gr, gc = rng.randint(5, 8), rng.randint(5, 8)
-    crop = rng.chance(0.15)
+    crop = rng.chance(0.3)
     cand = []
     for i in range(gr):
         for j in range(gc):
             di, dj = signed(gr, i), signed(gc, j)
             if di * di + dj * dj <= 6 and abs(di) <= (gr - 1) // 2 and abs(dj) <= (gc - 1) // 2:
                 cand.append((i, j, di * di + dj * dj))
-    if crop:
+    if crop and rng.chance(0.4):      # a disk, symmetric about the origin
         rad2 = rng.choice([1, 2])
         pix = sorted((i, j) for i, j, d in cand if d <= rad2)
-    else:
+    else:                             # arbitrary (in general asymmetric) mask
         nmask = min(rng.randint(3, 12), len(cand))
         chosen = rng.sample(cand, nmask)
         if not any(d <= 2 for _, _, d in chosen):      # at least one pixel well inside the aperture (W > 0)
             chosen[0] = rng.choice([x for x in cand if x[2] <= 2])
         pix = sorted(set((i, j) for i, j, _ in chosen))
-    # padding such that the crop box of the fftshifted mask stays inside the detector
-    pad_cap = min(min(g // 2 - 1, g - 1 - (g // 2 + 1)) for g in (gr, gc))
     n = len(pix)
     r, c = rng.randint(4, 9), rng.randint(4, 9)
     sx = rng.choice([0.5, 0.6, 0.7, 0.8, 1.0])
@@ -181,7 +180,7 @@ def _gen_case_once(rng, idx):
         k = rng.randint(2, n - 1)
         sub = sorted(rng.sample(list(range(n)), k))
     return {
-        "idx": idx, "det": [gr, gc], "pix": [list(p) for p in pix], "crop": crop, "pad": rng.randint(0, max(0, pad_cap)) if crop else 1,
+        "idx": idx, "det": [gr, gc], "pix": [list(p) for p in pix], "crop": crop, "pad": rng.randint(0, 2) if crop else 1,
         "scan": [r, c], "sx": sx, "sy": sy, "rs": rs, "units": "mrad" if rng.chance(0.2) else "A^-1",
         "E": E, "semiangle": semiangle, "soft": rng.chance(0.6), "ab_kind": ab_kind, "ab": ab, "rot": rot, "u": u,
         "kernel": kernel, "alias": alias, "ql": ql, "qh": qh, "order": order, "eps": rng.choice([0.1, 0.01, 1.0]),
@@ -385,7 +384,7 @@ def run_problem(ctx, drv, case):
     # natural magnitude of one corrected image: deviation of the virtual images from their mean, over W
     dev = stack[sub].astype(np.float64) - stack[sub].astype(np.float64).mean(axis=(1, 2), keepdims=True)
     nat = maxabs(dev) / max(W, 1e-30)
-    floor = 1e-3 * nat
+    floor = 0.05 * nat      # TOL*floor ~ 10 eps32 x nat: the absolute float32 noise level of an output pixel
 
     # ---- q-grid stream: model `qGrid` vs the grid the real code hands to the kernel method ----
     ans = drv.ask({"op": "qgrid", "N": N, "M": M, "dx": fl([case["sx"] / u])[0], "dy": fl([case["sy"] / u])[0]})
@@ -561,7 +560,7 @@ def run_problem(ctx, drv, case):
     r3 = recon(make_dp(case, stack3), case, bf_mask=submask, b=gb.randint(1, n)).reshape(n, -1)
     want = a * r1 + r2
     dev2 = stack2[sub].astype(np.float64) - stack2[sub].astype(np.float64).mean(axis=(1, 2), keepdims=True)
-    lin_scale = max(abs(a) * maxabs(r1) + maxabs(r2), 1e-3 * (abs(a) * nat + maxabs(dev2) / max(W, 1e-30)))
+    lin_scale = max(abs(a) * maxabs(r1) + maxabs(r2), 0.05 * (abs(a) * nat + maxabs(dev2) / max(W, 1e-30)))
     err = maxabs(r3 - want) / max(lin_scale, 1e-30)
     ctx.stat_max("linearity_rel", err)
     ctx.count()
@@ -723,6 +722,58 @@ def run_parallax(ctx, drv, case, stack, tag):
 
 
 # ---------------------------------------------------------------------------------------
+# crop_bf_mask=True with masks that are not symmetric about the origin
+
+def run_crop_case(ctx, cc):
+    """defocused parallax (whole-pixel shifts, hard aperture covering the mask) against the NumPy roll oracle, with the
+    construction mask cropped by from_virtual_bfs(crop_bf_mask=True)"""
+    lam = wavelength(80e3)
+    gr, gc = cc["det"]
+    r, c = cc["scan"]
+    case = {"det": cc["det"], "pix": cc["pix"], "crop": True, "pad": cc["pad"], "scan": cc["scan"], "sx": 0.5, "sy": 0.5, "rs": 0.2,
+            "units": "A^-1", "E": 80e3, "semiangle": 3.2 * 0.2 * lam * 1e3, "soft": False,
+            "ab": {"C10": cc["t"] * 0.5 / (lam * 0.2)}, "rot": 0.0, "u": 1, "alias": "parallax", "ql": None, "qh": None,
+            "order": 2, "eps": 0.1, "flip": False}
+    n = len(cc["pix"])
+    stack = gen_stack(cc["stack_seed"], n, r, c, "int")
+    dp = make_dp(case, stack)
+    got = recon(dp, case, b=cc["b"]).reshape(n, -1).sum(axis=0)
+    ms = stack.astype(np.float64) - stack.astype(np.float64).mean(axis=(1, 2), keepdims=True)
+    want = np.zeros((r, c))
+    for t, (i, j) in enumerate(cc["pix"]):      # stack row t belongs to detector pixel pix[t] of the (uncropped) mask
+        want += np.roll(ms[t], (cc["t"] * signed(gr, i), cc["t"] * signed(gc, j)), axis=(0, 1))
+    want = (want / n).ravel()
+    err = maxabs(got - want) / max(float(np.abs(ms).sum(axis=0).max()) / n, 1e-30)
+    ctx.count()
+    ctx.dist[f"crop-mask:extra-pixel-{cc['side']}"] += 1
+    if cc["side"] == "negative":
+        ctx.stat_max("crop_negative_side_rel", err)
+    if not err <= TOL_LIN * 40:
+        key = "crop-asymmetric-mask" if cc["side"] == "positive" else "crop-mask"
+        ctx.pred_fail(key, "crop_bf_mask=True: defocused parallax != sum of the images rolled by the geometric shift of their "
+                           "detector pixel / aperture weight (mask extends further on the positive-frequency side)"
+                      if cc["side"] == "positive" else "crop_bf_mask=True changes the reconstruction",
+                      {"crop_case": cc}, observed={"rel_diff": err, "cropped_gpts": [int(x) for x in dp.gpts], **summarize(got)},
+                      required=summarize(want))
+
+
+def run_crop_cases(ctx, rng):
+    for _ in range(ctx.n(4, 24)):
+        gr, gc = rng.randint(7, 8), rng.randint(7, 8)
+        rad2 = rng.choice([1, 2])
+        pix = [(i, j) for i in range(gr) for j in range(gc) if signed(gr, i) ** 2 + signed(gc, j) ** 2 <= rad2]
+        side = rng.choice(["positive", "negative"])
+        axis = rng.below(2)
+        d = 2 if side == "positive" else -2
+        extra = ((d % gr, 0) if axis == 0 else (0, d % gc))
+        pix = sorted(set(pix + [extra]))
+        cc = {"det": [gr, gc], "pix": [list(p) for p in pix], "side": side, "pad": rng.randint(0, 1),
+              "scan": [rng.randint(5, 7), rng.randint(5, 7)], "t": rng.choice([1, -1]), "stack_seed": rng.below(1 << 30),
+              "b": rng.randint(1, len(pix))}
+        guarded(ctx, {"crop_case": cc}, run_crop_case, ctx, cc)
+
+
+# ---------------------------------------------------------------------------------------
 # alias table
 
 def run_aliases(ctx, drv, rng):
@@ -766,6 +817,21 @@ def run_aliases(ctx, drv, rng):
 
 # ---------------------------------------------------------------------------------------
 
+def guarded(ctx, case, fn, *args):
+    """an exception raised while the real code processes a valid input is a failure of the property on that input
+    (the reconstruction is not a function of its inputs there), not a harness crash; driver failures stay infra errors"""
+    try:
+        fn(*args)
+    except RuntimeError as e:
+        if str(e).startswith("driver"):
+            raise
+        ctx.pred_fail(f"exception-{type(e).__name__}", "valid input: the real code raised", case, observed=repr(e)[:300],
+                      required="a reconstruction")
+    except Exception as e:  # noqa
+        ctx.pred_fail(f"exception-{type(e).__name__}", "valid input: the real code raised", case, observed=repr(e)[:300],
+                      required="a reconstruction")
+
+
 def run(ctx):
     import torch
     from qv.driver import Driver
@@ -773,11 +839,12 @@ def run(ctx):
     drv = Driver("C04")
     try:
         run_aliases(ctx, drv, ctx.rng.fork(999))
+        run_crop_cases(ctx, ctx.rng.fork(998))
         nprob = ctx.n(25, 250)
         for idx in range(nprob):
             rng = ctx.rng.fork(idx)
             case = gen_case(rng, idx)
-            run_problem(ctx, drv, case)
+            guarded(ctx, case, run_problem, ctx, drv, case)
     finally:
         drv.close()
 
@@ -793,6 +860,8 @@ def replay(ctx, rep):
     try:
         if "alias_name" in case or "name" in case:
             run_aliases(ctx, drv, _rng(0))
+        elif "crop_case" in case:
+            run_crop_case(ctx, case["crop_case"])
         elif case.get("prlx_case"):
             # the parallax sub-case is re-derived from the generating problem
             n_full = len(case["pix"])
